@@ -730,3 +730,52 @@ pub proof fn lemma_frag_unfold(s: Seq<u8>)
 pub proof fn lemma_bits_of_len(s: Seq<u8>)
     ensures bits_of(s).len() == s.len() * 8
 { }
+
+// ===== 16 BIT STRING =====
+
+/// 11.9.3.8 applied to bits: like x691_frag_octets with the bit as the unit
+pub open spec fn x691_frag_bits(bs: Seq<bool>) -> Seq<bool>
+    decreases bs.len()
+{
+    let n = bs.len() as u64;
+    if bs.len() < 16384 {
+        x691_len_short(n) + bs
+    } else if bs.len() > u64::MAX {
+        Seq::empty()
+    } else {
+        let a = len_announced(n) as int;
+        if 16384 <= a <= bs.len() {
+            x691_len_general(n) + bs.subrange(0, a) + x691_frag_bits(bs.subrange(a, bs.len() as int))
+        } else { Seq::empty() }
+    }
+}
+
+/// 16: BIT STRING with SIZE (lb..ub[, ...]); bs are the bits of the value
+pub open spec fn x691_bitstr(lb: Option<u64>, ub: Option<u64>, ext: bool, bs: Seq<bool>) -> Seq<bool>
+    recommends octets_in_profile(lb, ub), ext || (len_lb(lb) <= bs.len() <= len_ub(ub))
+{
+    let n = bs.len() as u64;
+    let out = n < len_lb(lb) || n > len_ub(ub);
+    let e = if ext { seq![out] } else { Seq::<bool>::empty() };
+    if out { e + x691_frag_bits(bs) }                                                   // 16.6
+    else if lb is Some && lb == ub && len_ub(ub) < 65536 { e + bs }                     // 16.8 - 16.10
+    else if lb is None && ub is None { e + x691_frag_bits(bs) }                         // 16.11, unconstrained length
+    else { e + x691_len(lb, ub, n) + bs }                                               // 16.11, constrained length
+}
+
+pub proof fn lemma_frag_bits_unfold(bs: Seq<bool>)
+    requires bs.len() <= u64::MAX
+    ensures
+        bs.len() < 16384 ==> x691_frag_bits(bs) == x691_len_short(bs.len() as u64) + bs,
+        bs.len() >= 16384 ==> ({
+            let a = len_announced(bs.len() as u64) as int;
+            16384 <= a <= bs.len() && a <= 65536 &&
+            x691_frag_bits(bs) == x691_len_general(bs.len() as u64) + bs.subrange(0, a) + x691_frag_bits(bs.subrange(a, bs.len() as int))
+        }),
+{
+    if bs.len() >= 16384 {
+        let n = bs.len() as u64;
+        let m: u8 = (if n / 16384 >= 4 { 4u64 } else { n / 16384 }) as u8;
+        lemma_announced(n, m);
+    }
+}
